@@ -18,7 +18,7 @@ theorem mk_dflt (h : Head) (ann : Ann) (args : Term) (hs : AnnotSound I ρ (.app
     eval I ρ (.app h ann args) = eval I ρ (.app h ann args) ∧ AnnotSound I ρ (.app h ann args) :=
   ⟨rfl, hs⟩
 
-theorem annOK_none (t : Tensor α) : annOK Ann.none t := by
+theorem annOK_none (t : Tensor α) : annOK I Ann.none t := by
   constructor <;> intro _ h <;> simp [Ann.none] at h
 
 theorem castT_same (L : Laws I WT) (to : Nat) (x : Tensor α) (h : x.dtype = to) :
@@ -94,7 +94,22 @@ theorem mk_cast (L : Laws I WT) (hWT : ∀ t x, x ∈ eval I ρ t → WT x) (to 
           refine ⟨?_, ?_⟩
           · simp [eval, hy, applyHead, castT_transpose]
           · simp only [AnnotSound]
-            exact ⟨⟨⟨⟨hsb, trivial⟩, annOK_none _⟩, trivial⟩, annOK_none _⟩
+            exact ⟨⟨⟨⟨hsb, trivial⟩, annOK_none I _⟩, trivial⟩, annOK_none I _⟩
+        · exact mk_dflt I ρ _ _ _ hs
+      · -- pull the cast below the reshape
+        rename_i an2 b sT hneg
+        split
+        · rename_i hc
+          simp only [Bool.and_eq_true] at hc
+          obtain ⟨hpb, hps⟩ := hc
+          obtain ⟨y, hy⟩ := eval_proper I ρ hpb
+          obtain ⟨z, hz⟩ := eval_proper I ρ hps
+          have hsb : AnnotSound I ρ b := hs.1.1.1.1
+          have hss : AnnotSound I ρ sT := hs.1.1.1.2.1
+          refine ⟨?_, ?_⟩
+          · simp [eval, hy, hz, applyHead, L.reshape_cast]
+          · simp only [AnnotSound]
+            exact ⟨⟨⟨⟨hsb, trivial⟩, annOK_none I _⟩, hss, trivial⟩, annOK_none I _⟩
         · exact mk_dflt I ρ _ _ _ hs
       · exact mk_dflt I ρ _ _ _ hs
   · exact mk_dflt I ρ _ _ _ hs
@@ -116,7 +131,7 @@ theorem mk_castLike (ann : Ann) (args : Term) :
       refine ⟨?_, ?_⟩
       · simp [eval, hy, hz, applyHead, castT_transpose]
       · simp only [AnnotSound]
-        exact ⟨⟨⟨⟨hsb, hsl, trivial⟩, annOK_none _⟩, trivial⟩, annOK_none _⟩
+        exact ⟨⟨⟨⟨hsb, hsl, trivial⟩, annOK_none I _⟩, trivial⟩, annOK_none I _⟩
     · exact mk_dflt I ρ _ _ _ hs
   · exact mk_dflt I ρ _ _ _ hs
 
@@ -180,7 +195,7 @@ theorem pull1_sem (p : List Nat) (n : Option Nat) (a x : Term) (h : pull1 p n a 
           simp only [annRank, Option.map_eq_some_iff] at hr
           obtain ⟨sh, hsh, hlen⟩ := hr
           rw [← hlen]
-          exact hs.1.2 sh hsh
+          exact (hs.1.2 sh hsh).1
         refine ⟨ρ id, by simp [eval], ?_, hs, ?_, ?_⟩
         · simp [eval, transpose_scalarLike p _ hsl]
         · intro k' hk'
@@ -274,7 +289,7 @@ theorem mk_pw (L : Laws I WT) (nm att : String) (ann : Ann) (args : Term) :
         rw [← erase_eval I ρ y, ← he, erase_eval I ρ x, ht]
       refine ⟨by simp [eval, ht, hy, applyHead, pw_self_compose _ _ _ L.swish], ?_⟩
       simp only [AnnotSound]
-      exact ⟨⟨hs.1.1, trivial⟩, annOK_none _⟩
+      exact ⟨⟨hs.1.1, trivial⟩, annOK_none I _⟩
     · exact mk_dflt I ρ _ _ _ hs
   · -- Sigmoid(x) * x
     rename_i an2 y x hneg
@@ -287,7 +302,35 @@ theorem mk_pw (L : Laws I WT) (nm att : String) (ann : Ann) (args : Term) :
         rw [← erase_eval I ρ y, ← he, erase_eval I ρ x, ht]
       refine ⟨by simp [eval, ht, hy, applyHead, pw_compose_self _ _ _ L.swish'], ?_⟩
       simp only [AnnotSound]
-      exact ⟨⟨hs.1.2.1, trivial⟩, annOK_none _⟩
+      exact ⟨⟨hs.1.2.1, trivial⟩, annOK_none I _⟩
+    · exact mk_dflt I ρ _ _ _ hs
+  · -- pull a unary pointwise operator below a reshape
+    rename_i an2 b sT
+    split
+    · rename_i hc
+      simp only [Bool.and_eq_true] at hc
+      obtain ⟨hpb, hps⟩ := hc
+      obtain ⟨y, hy⟩ := eval_proper I ρ hpb
+      obtain ⟨z, hz⟩ := eval_proper I ρ hps
+      have hsb : AnnotSound I ρ b := hs.1.1.1.1
+      have hss : AnnotSound I ρ sT := hs.1.1.1.2.1
+      refine ⟨?_, ?_⟩
+      · simp [eval, hy, hz, applyHead, L.reshape_pw]
+      · simp only [AnnotSound]
+        refine ⟨⟨⟨⟨hsb, trivial⟩, ?_⟩, hss, trivial⟩, annOK_none I _⟩
+        obtain ⟨pr, pd, _⟩ := pw_unary_spec (I.fn nm att) y
+        constructor
+        · intro d hd
+          simp only [derivedAnn] at hd
+          have hdt := (dtypeOf_sound_aux I ρ b).1 hsb d hd y hy
+          simp [eval, hy, applyHead, pw, hdt]
+        · intro sh hsh
+          simp only [derivedAnn, Option.map_eq_some_iff] at hsh
+          obtain ⟨n, hn, rfl⟩ := hsh
+          have hr := rankOf_sound I ρ b hsb n hn y hy
+          refine ⟨by simp [eval, hy, applyHead, pr, hr], ?_⟩
+          intro k' hk'
+          simp [dimOK]
     · exact mk_dflt I ρ _ _ _ hs
   · split
     · rename_i p xs kk hpa
@@ -353,7 +396,7 @@ theorem mk_pw (L : Laws I WT) (nm att : String) (ann : Ann) (args : Term) :
               simp only [eval, applyHead, e, h1, List.append_nil]
               rw [pw_transpose (I.fn nm att) p hpv ts k hok hex]
             · simp only [AnnotSound]
-              refine ⟨⟨⟨(annot_ofList I ρ xs).2 h3, ?_⟩, trivial⟩, annOK_none _⟩
+              refine ⟨⟨⟨(annot_ofList I ρ xs).2 h3, ?_⟩, trivial⟩, annOK_none I _⟩
               -- the derived annotation of the new inner node is true
               constructor
               · intro d hd
@@ -371,7 +414,9 @@ theorem mk_pw (L : Laws I WT) (nm att : String) (ann : Ann) (args : Term) :
                 obtain ⟨n, hn, rfl⟩ := hsh
                 have := hkk n hn
                 subst this
-                simp [applyHead, pw, h1, hrank]
+                refine ⟨by simp [applyHead, pw, h1, hrank], ?_⟩
+                intro k' hk'
+                simp [dimOK]
       · exact mk_dflt I ρ _ _ _ hs
     · exact mk_dflt I ρ _ _ _ hs
 
@@ -391,7 +436,85 @@ theorem mk_reduce (L : Laws I WT) (nm : String) (axes : List Nat) (ann : Ann) (a
       refine ⟨?_, ?_⟩
       · simp [eval, ht, applyHead, L.reduce_transpose nm axes p t hv hrk hax]
       · simp only [AnnotSound]
-        exact ⟨⟨⟨⟨hsa, trivial⟩, annOK_none _⟩, trivial⟩, annOK_none _⟩
+        exact ⟨⟨⟨⟨hsa, trivial⟩, annOK_none I _⟩, trivial⟩, annOK_none I _⟩
+    · exact mk_dflt I ρ _ _ _ hs
+  · exact mk_dflt I ρ _ _ _ hs
+
+theorem reshapeId_sound (L : Laws I WT) (ann : Ann) (a sT : Term) (x z : Tensor α)
+    (hx : eval I ρ a = [x]) (hz : eval I ρ sT = [z]) (hsa : AnnotSound I ρ a)
+    (hss : AnnotSound I ρ sT) (hann : annOK I ann (I.reshape x z)) :
+    eval I ρ (reshapeId ann a sT) = [I.reshape x z] ∧ AnnotSound I ρ (reshapeId ann a sT) := by
+  have dflt : eval I ρ (.app .reshape ann (.cons a (.cons sT .nil))) = [I.reshape x z] ∧
+      AnnotSound I ρ (.app .reshape ann (.cons a (.cons sT .nil))) := by
+    refine ⟨by simp [eval, hx, hz, applyHead], ?_⟩
+    simp only [AnnotSound]
+    exact ⟨⟨hsa, hss, trivial⟩, by simpa [eval, hx, hz, applyHead] using hann⟩
+  unfold reshapeId
+  split
+  · rename_i so sa hso hsa'
+    split
+    · rename_i hc
+      simp only [Bool.and_eq_true, decide_eq_true_eq, List.all_eq_true] at hc
+      obtain ⟨heq, hknown⟩ := hc
+      subst heq
+      obtain ⟨r1, d1⟩ := hann.2 so hso
+      obtain ⟨r2, d2⟩ := shapeOf_sound I ρ a hsa so hsa' x hx
+      have hsame : I.reshape x z = x := by
+        apply L.reshape_same
+        · rw [r1, r2]
+        · intro k hk
+          have hk' : k < so.length := by omega
+          have a1 := d1 k hk'
+          have a2 := d2 k hk'
+          have hnu := hknown so[k] (List.getElem_mem hk')
+          cases hd : so[k] with
+          | known m => simp only [hd, dimOK] at a1 a2; omega
+          | sym sy => simp only [hd, dimOK] at a1 a2; omega
+          | unk => simp [hd, Dim.isUnk] at hnu
+      exact ⟨by rw [hsame]; exact hx, hsa⟩
+    · exact dflt
+  · exact dflt
+
+theorem mk_reshape (L : Laws I WT) (ann : Ann) (args : Term) :
+    MkStmt I ρ .reshape ann args (mkReshape ann args) := by
+  intro hs
+  unfold mkReshape
+  split
+  · rename_i a sT
+    split
+    · rename_i hc
+      simp only [Bool.and_eq_true] at hc
+      obtain ⟨hpa, hps⟩ := hc
+      obtain ⟨x, hx⟩ := eval_proper I ρ hpa
+      obtain ⟨z, hz⟩ := eval_proper I ρ hps
+      have hsa : AnnotSound I ρ a := hs.1.1
+      have hss : AnnotSound I ρ sT := hs.1.2.1
+      have hann : annOK I ann (I.reshape x z) := by
+        have := hs.2; simpa [eval, hx, hz, applyHead] using this
+      have tgt : eval I ρ (.app .reshape ann (.cons a (.cons sT .nil))) = [I.reshape x z] := by
+        simp [eval, hx, hz, applyHead]
+      split
+      · rename_i an2 b s1
+        split
+        · rename_i hc2
+          simp only [Bool.and_eq_true] at hc2
+          obtain ⟨hpb, hps1⟩ := hc2
+          obtain ⟨y, hy⟩ := eval_proper I ρ hpb
+          obtain ⟨w, hw⟩ := eval_proper I ρ hps1
+          have hxe : x = I.reshape y w := by
+            have : eval I ρ (.app .reshape an2 (.cons b (.cons s1 .nil))) = [I.reshape y w] := by
+              simp [eval, hy, hw, applyHead]
+            rw [this] at hx; simpa using hx.symm
+          have hsb : AnnotSound I ρ b := hsa.1.1
+          have hann' : annOK I ann (I.reshape y z) := by
+            rw [← L.reshape_reshape y w z, ← hxe]; exact hann
+          obtain ⟨e, s'⟩ := reshapeId_sound I ρ WT L ann b sT y z hy hz hsb hss hann'
+          refine ⟨?_, s'⟩
+          rw [e, tgt, hxe, L.reshape_reshape]
+        · obtain ⟨e, s'⟩ := reshapeId_sound I ρ WT L ann _ sT x z hx hz hsa hss hann
+          exact ⟨by rw [e, tgt], s'⟩
+      · obtain ⟨e, s'⟩ := reshapeId_sound I ρ WT L ann a sT x z hx hz hsa hss hann
+        exact ⟨by rw [e, tgt], s'⟩
     · exact mk_dflt I ρ _ _ _ hs
   · exact mk_dflt I ρ _ _ _ hs
 
@@ -404,7 +527,7 @@ theorem mk_sound (L : Laws I WT) (hWT : ∀ t x, x ∈ eval I ρ t → WT x) (h 
   | cast to => exact mk_cast I ρ WT L hWT to ann args
   | castLike => exact mk_castLike I ρ ann args
   | pw nm att => exact mk_pw I ρ WT L nm att ann args
-  | reshape => exact fun hs => mk_dflt I ρ _ _ _ hs
+  | reshape => exact mk_reshape I ρ WT L ann args
   | reduce nm ax => exact mk_reduce I ρ WT L nm ax ann args
   | opq op att k => exact fun hs => mk_dflt I ρ _ _ _ hs
 
